@@ -337,14 +337,15 @@ def design_check(kw, workers=None):
     if r['rc'] != 0 or r['errors']:
         errors.append('Cache.tla design check (repaired model) failed: rc=%s %s'
                       % (r['rc'], ' | '.join(r['errors'][:6])))
-    if 'S6' in open_ids:
-        d = tlc.prepare(open_ids)
-        r = tlc.run('Cache.tla', 'MC_design.cfg', workdir=d, cfg_text=text, timeout=3000,
-                    workers=workers)
-        refuted = [e for e in r['errors'] if 'is violated' in e]
-        info['design_original'] = {'rc': r['rc'], 'refuted': refuted[:3]}
-        if not refuted:
-            errors.append('Cache.tla: the original-behaviour model (S6) is not refuted by TLC')
+    # sensitivity (vacuity guard), whatever the state of the tree: with the
+    # ORIGINAL behaviour of S6 switched on TLC must refute the design
+    d = tlc.prepare(sorted(set(open_ids) | {'S6'}))
+    r = tlc.run('Cache.tla', 'MC_design.cfg', workdir=d, cfg_text=text, timeout=3000,
+                workers=workers)
+    refuted = [e for e in r['errors'] if 'is violated' in e]
+    info['design_original_S6'] = {'rc': r['rc'], 'refuted': refuted[:3]}
+    if not refuted:
+        errors.append('Cache.tla: the original-behaviour model (S6) is not refuted by TLC')
     return stats, info, errors
 
 
@@ -414,6 +415,7 @@ def run(prop, tier):
     res.coverage['traces_validated_against_impl'] = len(records)
     res.coverage['evaluations'] = len(records)
     by_clause, known, samples, nontrivial = {}, {}, [], 0
+    viol_counts = {}
     for rec, j in zip(records, jobs):
         v = verdicts[rec['id']]
         status, clause = v[prop]
@@ -437,13 +439,17 @@ def run(prop, tier):
                 res.known_finding(kf['id'], f"{kf['what']} [{clause}] e.g. {text} -> "
                                   f"{[s['vs'] or s['exc'] for s in rec['obs']['steps']]}")
             continue
+        # every violating history is counted; at most 5 replay files per clause
+        # and 25 in total are written
+        viol_counts[clause] = viol_counts.get(clause, 0) + 1
+        if viol_counts[clause] > 5 or len(res.violations) >= 25:
+            continue
         res.violation(f'{clause}: {text}',
                       {'family': 'cache', 'par': rec['par'], 'hist': rec['hist'],
                        'obs': rec['obs'], 'verdict': [status, clause],
                        'model_verdict': v['mv'], 'conformance': v['conf'],
                        'how': 'real observation judged by TLC (CacheTrace.tla, V_C10)'})
-        if len(res.violations) >= 25:
-            break
+    res.coverage['violating_histories'] = viol_counts
     if not samples and records:
         samples.append({'history': short(records[0]['par'], records[0]['hist']),
                         'verdict': list(verdicts[records[0]['id']][prop])})
